@@ -15,6 +15,10 @@ TRUSTED = [
     "hand model Model/Flow.v of FlowMgr.get_flow/cli_to_flow_nums/load_from_db and of the workflow_flows table "
     "(INSERT OR REPLACE on process_queued_ops, MAX(flow_num), SELECT ... WHERE flow_num IN (...))",
     "sqlite3 (the harness opens the databases with PRAGMA synchronous=OFF, for speed only)",
+    "hand model Model/FlowCmd.v of the flow-number side of TaskPool.set_prereqs_and_outputs (outputs branches), "
+    "merge_flows and spawn_on_output; the shared in-process scheduler driver vp/sched/driver.py (fake process pool) and "
+    "the wrappers this module puts around set_prereqs_and_outputs/_set_outputs_itask/spawn_on_output/merge_flows/"
+    "spawn_task/cli_to_flow_nums/_get_active_flow_nums to record each command",
 ]
 ASSUMES = [
     "restarts are clean (queued DB inserts are written at shutdown); a crash between allocation and commit is C20",
@@ -274,7 +278,7 @@ from vp.sched.stream import SchedStream
 _FC = {"set": 0, "soo": [], "merge": 0, "objs": []}
 _FC_INSTALLED = [False]
 
-KEEP_FC = {"fc_set_begin", "fc_set_end", "fc_cli", "fc_active", "fc_out_begin", "fc_out_end", "fc_effect",
+KEEP_FC = {"fc_set_error", "fc_set_begin", "fc_set_end", "fc_cli", "fc_active", "fc_out_begin", "fc_out_end", "fc_effect",
            "fc_skip_transient", "op", "op_rejected", "output", "spawn", "spawn_none", "merge"}
 
 
@@ -301,6 +305,9 @@ def _fc_install():
         _FC["objs"] = []
         try:
             return o_set(self, items, outputs, prereqs, flow, flow_wait, flow_descr)
+        except Exception as exc:     # (the command runner would log and swallow it)
+            D.ev("fc_set_error", exc=f"{type(exc).__name__}: {exc}")
+            raise
         finally:
             _FC["set"] -= 1
             D.ev("fc_set_end", counter=fm.counter, pool=pool_flows(self),
@@ -361,7 +368,7 @@ def _fc_install():
         finally:
             _FC["merge"] -= 1
             if _FC["set"]:
-                D.ev("fc_effect", kind="merge", id=D.tid(itask), obj=id(itask), before=before, arg=arg,
+                D.ev("fc_effect", what="merge", id=D.tid(itask), obj=id(itask), before=before, arg=arg,
                      after=sorted(itask.flow_nums), parent=parent, nested=nested)
     TaskPool.merge_flows = n_mf
 
@@ -373,7 +380,7 @@ def _fc_install():
         parent = _FC["soo"][-1] if _FC["soo"] else None
         r = o_sp(self, name, point, flow_nums, flow_wait)
         if _FC["set"]:
-            D.ev("fc_effect", kind="spawn", id=[int(str(point)), name], obj=None if r is None else id(r),
+            D.ev("fc_effect", what="spawn", id=[int(str(point)), name], obj=None if r is None else id(r),
                  before=None, arg=arg, after=None if r is None else sorted(r.flow_nums), parent=parent, nested=nested)
         return r
     TaskPool.spawn_task = n_sp
@@ -403,6 +410,8 @@ def _fc_commands(trace):
             cur["effects"].append(e)
         elif k == "output" and cur["outs"] and cur["outs"][-1]["end"] is None:
             cur["outputs"].append(e)
+        elif k == "fc_set_error":
+            cur["error"] = e["exc"]
         elif k == "fc_set_end":
             cur["end"] = e
             out.append(cur)
@@ -430,7 +439,7 @@ def _fc_view(cmd):
     effects = []
     if ob is not None:
         effects = [e for e in cmd["effects"] if e["parent"] == ob["begin"]["obj"] and not e["nested"]
-                   and not (e["kind"] == "merge" and e["id"] == tgt)]
+                   and not (e["what"] == "merge" and e["id"] == tgt)]
     if ob is not None:
         after = [fl for i, o_, fl in cmd["end"]["objs"] if o_ == ob["begin"]["obj"]][0]
     else:
@@ -446,7 +455,7 @@ def _fc_view(cmd):
 
 class FlowCmdStream(SchedStream):
     """`cylc set --flow=new|N|none|(default) --out=... <task>` on pooled and inactive tasks of generated workflows."""
-    coq_import = "From Cylc Require Import Model.FlowCmd."
+    coq_import = "From Cylc Require Import Model.Flow Model.FlowCmd."
     check_fn = "FlowCmd.check_case"
     show_fn = "FlowCmd.model_out"
     shard_size = 40
@@ -548,14 +557,157 @@ class FlowCmdStream(SchedStream):
             out.append(r)
         return out
 
-    # -- Coq cases: one record per command; a run's commands are checked together -------------
+    # -- Coq case: the list of the run's modelled commands ----------------------------------
     def coq_case(self, c, r):
-        # (check_fn takes ONE case; a run has several commands: they are emitted as separate terms by
-        #  coq_cases below; the framework calls coq_case once per run, so fold them with a conjunction helper)
-        raise NotImplementedError
+        if r["meta"].get("error") or r["meta"].get("flaky"):
+            return None
+        zl = lambda l: q.clist(q.cz(x) for x in l)  # noqa
+        recs = []
+        for cmd in _fc_commands(r["trace"]):
+            v = _fc_view(cmd)
+            if v is None or cmd.get("error"):
+                continue
+            fl = v["flow"]
+            cli = "CNew" if fl == ["new"] else "CNone" if fl == ["none"] else f"(CNums {zl([int(x) for x in fl])})"
+            if not isinstance(v["counter"], int) or not isinstance(v["counter_after"], int):
+                return None
+            effs = q.clist(q.crecord(eo_before=q.copt(e["before"], zl), eo_arg=zl(e["arg"]), eo_after=q.copt(e["after"], zl))
+                           for e in v["effects"])
+            recs.append(q.crecord(
+                k_counter=q.copt(v["counter"], q.cz), k_flowkeys=zl(v["flowkeys"]), k_cli=cli,
+                k_pool=q.clist(zl(f) for f in v["pool"]), k_fallback=zl(v["fallback"]),
+                k_pooled=q.cbool(v["pooled"]), k_old=zl(v["old"]), k_loaded=q.cbool(v["ran"] and not v["pooled"]),
+                k_counter_after=q.copt(v["counter_after"], q.cz), k_ran=q.cbool(v["ran"]),
+                k_target_after=zl(v["after"]), k_effects=effs))
+        if not recs:
+            return None
+        return q.clist(recs)
 
+    # -- oracle: the clause, stated on the trace ----------------------------------------------
     def oracle(self, c, r):
-        raise NotImplementedError
+        if r["meta"].get("flaky"):
+            return None
+        if r["meta"].get("error"):
+            return "error: scheduler run raised " + r["meta"]["error"]
+        for e in r["trace"]:
+            if e["e"] == "op_rejected":
+                return f"error: command rejected: {e}"
+        g = scen.instance_graph(c)["inst"]
+        seen = set()        # every flow number seen so far (pool, FlowMgr, results)
+        for cmd in _fc_commands(r["trace"]):
+            b = cmd["begin"]
+            for _i, fl in b["pool"]:
+                seen |= set(fl)
+            seen |= set(b["flowkeys"])
+            if cmd.get("error"):
+                return f"error: set {b['targets']} --flow={b['flow']} raised {cmd['error']}"
+            v = _fc_view(cmd)
+            if v is None:
+                continue
+            w = f"set --flow={','.join(v['flow']) or '(default)'} --out={','.join(b['outputs']) or '(default)'} " \
+                f"{v['target'][0]}/{v['target'][1]}: "
+            F = set(v["resolved"])
+            if v["flow"] == ["new"]:
+                if len(F) != 1 or F & seen:
+                    return w + f"new-flow-not-fresh: --flow=new gave {sorted(F)}; numbers already in use: {sorted(seen)}"
+            elif v["flow"] == ["none"]:
+                if F:
+                    return w + f"target-flows: --flow=none resolved to {sorted(F)}"
+            elif v["flow"]:
+                if F != {int(x) for x in v["flow"]}:
+                    return w + f"target-flows: --flow={v['flow']} resolved to {sorted(F)}"
+            else:
+                F = set(v["fallback"])
+                act = set().union(*[set(fl) for fl in v["pool"]]) if v["pool"] else set()
+                if act and F != act:
+                    return w + f"target-flows: default flows {sorted(F)}, the active flows are {sorted(act)}"
+            seen |= F
+            old = set(v["old"])
+            if v["pooled"] and v["flow"] == ["none"] and old:
+                if v["ran"] or set(v["after"]) != old:
+                    return w + "target-flows: --flow=none on an active task with flows must be ignored"
+                continue
+            if not v["ran"]:
+                if v["pooled"]:
+                    return w + "target-flows: outputs of the pooled target were not set"
+                continue
+            post = set(v["after"])
+            want = (old | F) if v["pooled"] else F
+            if post != want:
+                return w + (f"target-flows: the task had flows {sorted(old)}, the command's flows are {sorted(F)}: "
+                            f"it ends with {sorted(post)}, expected {sorted(want)}")
+            # children of the outputs completed by this command carry the setter's (post-command) flows
+            for e in v["effects"]:
+                cid = f"{e['id'][0]}/{e['id'][1]}"
+                if set(e["arg"]) != post:
+                    return w + (f"children-flows: child {cid} was {'merged' if e['what'] == 'merge' else 'spawned'} with "
+                                f"flows {e['arg']} but the task now belongs to {sorted(post)}")
+                if e["after"] is not None:
+                    exp = post | set(e["before"] or [])
+                    if set(e["after"]) != exp:
+                        return w + f"children-flows: child {cid} has flows {e['after']}, expected the union {sorted(exp)}"
+            endpool = {tuple(i): set(fl) for i, fl in cmd["end"]["pool"]}
+            if post and not v["flow_wait"]:
+                touched = {tuple(e["id"]) for e in v["effects"]}
+                for o in v["outputs"]:
+                    for ch in g.get(tuple(v["target"]), {}).get("children", {}).get(o, []):
+                        ch = tuple(ch)
+                        if ch == tuple(v["target"]):
+                            continue
+                        if ch in endpool and not endpool[ch] >= post:
+                            return w + (f"children-flows: child {ch[0]}/{ch[1]} of output :{o} is in the pool with flows "
+                                        f"{sorted(endpool[ch])}, the task belongs to {sorted(post)}")
+                        if ch not in endpool and ch not in touched:
+                            return w + f"child-missing: child {ch[0]}/{ch[1]} of output :{o} was neither spawned nor merged"
+        return None
+
+    def classify(self, c, r, failure):
+        for tag in ("new-flow-not-fresh", "target-flows", "children-flows", "child-missing"):
+            if f": {tag}:" in failure:
+                return "flowcmd:" + tag
+        return "flowcmd:" + failure.split(":")[0].split(" ")[0]
+
+    def key(self, c, r):
+        if not isinstance(r, dict) or "trace" not in r:
+            return None
+        n = 0
+        for cmd in _fc_commands(r["trace"]):
+            v = _fc_view(cmd)
+            if v and v["effects"] and v["flow"]:
+                n += 1
+        if not n:
+            return None
+        return json.dumps([c["sections"], c["seed"], c["ops"]], sort_keys=True)
+
+    def shrink(self, c):
+        ops = c.get("ops", [])
+        for i in range(len(ops)):
+            c2 = json.loads(json.dumps(c))
+            del c2["ops"][i]
+            yield c2
+        yield from super().shrink(c)
 
 
-STREAMS = [FlowMgrStream()]
+STREAMS = [FlowMgrStream(), FlowCmdStream()]
+
+META = {
+    "level_text": (
+        "Coq theorems over Model/Flow.v for every history of get_flow(new|given)/cli_to_flow_nums/flush/clean restart "
+        "(load_from_db with any selection): a number returned for a NEW flow was never returned or recorded before "
+        "(state invariant: every recorded number is <= counter or a key of .flows; recorded numbers only grow; every "
+        "returned number is recorded), the skip loop terminates within the fuel the model gives it. Over Model/FlowCmd.v "
+        "(`cylc set --flow=F --out=O t` on pooled and inactive tasks): the target ends with exactly old ∪ F (F = the new "
+        "fresh number / the given numbers / all active flows / nothing), every child of the outputs it completes is "
+        "spawned with, or merged to the union with, the target's NEW flows, and a --flow=new number is in no pooled "
+        "task's flows. Both models are tied to the code by differential runs compared in Coq: the real FlowMgr + sqlite "
+        "table (stream flowmgr), and the real Scheduler in-process with real set commands (stream flowcmd)."),
+    "level_note": (
+        "Hand models. FlowCmd.v models flow numbers only: which children an output has and whether they are pooled is "
+        "data observed on the run (the oracle recomputes the children from the generator's own instance graph); the "
+        "prerequisite branch of `cylc set`, flow-wait, and retro-spawning inside merge_flows are outside the model. "
+        "'No re-run of a complete task in a flow' is C02. Restarts are clean; uniqueness across a crash is C20. Restart on "
+        "an empty workflow_flows table leaves counter=None (next --flow=new raises TypeError): modelled, excluded from the "
+        "theorem by hypothesis. Trusted: Coq kernel+VM, harness (vp/sched/driver.py + the wrappers in this file), sqlite."),
+    "technique": "Coq proof (state invariant by induction over histories; set-command lemmas) + in-Coq differential correspondence (real DB; real Scheduler in-process) + freshness / children-carry-flows oracles",
+    "design_ref": "5/C08",
+}
